@@ -167,6 +167,7 @@ def _new_result(law: Law) -> dict:
         "nt": set(),
         "nt_extra": 0,
         "labels": Counter(),
+        "skipped_labels": Counter(),
         "samples": [],
         "fails": [],  # (sig, case, detail)
         "wall_s": 0.0,
@@ -178,6 +179,11 @@ def _new_result(law: Law) -> dict:
 def _record(res: dict, law: Law, case: Any, status: str, fails: list) -> None:
     if status == "skip":
         res["skipped"] += 1
+        try:
+            for lab in law.labels(case):
+                res["skipped_labels"][lab] += 1
+        except Exception:  # noqa: BLE001  (a malformed case may not be classifiable)
+            pass
         return
     res["evaluations"] += 1
     try:
@@ -261,6 +267,7 @@ def drive_law(law: Law, tier: str, seed: int, shard_idx: int, n_examples: int) -
     res["wall_s"] = time.time() - t0
     res["nt"] = sorted(res["nt"])
     res["labels"] = dict(res["labels"])
+    res["skipped_labels"] = dict(res.get("skipped_labels", {}))
     return res
 
 
@@ -456,6 +463,7 @@ def main(argv=None) -> int:
                 "nt": set(),
                 "nt_extra": 0,
                 "labels": Counter(),
+                "skipped_labels": Counter(),
                 "samples": [],
                 "fails": [],
                 "wall_s": 0.0,
@@ -468,6 +476,7 @@ def main(argv=None) -> int:
         d["nt"].update(r["nt"])
         d["nt_extra"] += r.get("nt_extra", 0)
         d["labels"].update(r["labels"])
+        d["skipped_labels"].update(r.get("skipped_labels", {}))
         d["samples"] = (d["samples"] + r["samples"])[:6]
         d["fails"].extend(r["fails"])
         d["wall_s"] += r["wall_s"]
@@ -565,6 +574,8 @@ def main(argv=None) -> int:
                     "skipped": d["skipped"],
                     "distinct_nontrivial": len(d["nt"]) + d["nt_extra"],
                     "classes": dict(d["labels"]),
+                    # classes whose generated cases are mostly discarded (> 80 %): evaluated / discarded
+                    "mostly_discarded_classes": {k: [int(d["labels"].get(k, 0)), int(v)] for k, v in d["skipped_labels"].items() if v >= 5 and v > 4 * d["labels"].get(k, 0)},
                     "rule": laws[lname].rule,
                     "wall_s": round(d["wall_s"], 2),
                     **({"extra": d["extra"]} if d["extra"] else {}),
